@@ -80,6 +80,13 @@ class NPair(NamedTuple):
     a: float
     b: float
 
+from dataclasses import field
+@dataclass
+class KPair:
+    k: float = field(kw_only=True)
+    a: float
+    b: float
+
 CUT = 25.0
 SHIFT = 3
 def scaled(x): return x * 2.0 + SHIFT_IN_HELPER
@@ -134,6 +141,7 @@ SELECT = {
         ("seqnum", "{v}.jets().Select(lambda j: j.pt() + SHIFT)", CALLABLE),
         ("tup", "({v}.met(), {v}.nvtx())", ANY), ("tup", "({v}.jets().Count(), {v}.met({k}.0))", ANY),
         ("dic", "Pair(a={v}.met(), b={v}.nvtx())", CALLABLE), ("dic", "NPair({v}.met(), b={v}.jets().Count())", CALLABLE), ("dic", "Pair({v}.nvtx(), {v}.met())", CALLABLE),
+        ("dic", "KPair({v}.nvtx(), {v}.met(), k={v}.run)", CALLABLE), ("dic", "KPair({v}.met(), k={v}.run, b={v}.nvtx())", CALLABLE),
         ("tupseq", "({v}.jets(), {v}.met())", ANY), ("Event", "{v}", ANY),
         # inner fusion inside the stage lambda: an argument mentioning the stage variable is substituted below lambdas re-using names
         ("seqnum", "{v}.jets().Select(lambda j: (j, {v}.met())).Select(lambda t: t[0].pt() + t[1])", ANY),
@@ -317,6 +325,15 @@ def run_program(ctx, rnd, mode, typed, info):
     directs = []
     build_error = None
     try:
+        if mode == "callable":
+            # the same lambdas are first used with OTHER captured values (state kept between calls must not leak)
+            keep = (m.CUT, m.SHIFT)
+            m.CUT, m.SHIFT = -12345.5, 77
+            try:
+                m.build(m.DS(m.Event) if typed else m.DS(), PyStream([]))
+            except Exception:
+                pass
+            m.CUT, m.SHIFT = keep
         streams, _ = m.build(ds, PyStream([]))
     except Exception as e:
         build_error = e
